@@ -411,3 +411,13 @@ func VerifC07_mexp_negative() {
 	verifAssert(out.IsError(), "C07/mexp/negative-exponent-error")
 	verifReach("C07/mexp-neg/end")
 }
+
+// roundm(int, int): int-ness is preserved and no divisor (zero included) crashes.  The rounded
+// VALUE goes through math.Round(x/m)*m in floating point, which no back end decides for two
+// symbolic operands within the cap: outside the claim.
+func VerifC07_roundm_ii() {
+	x, m := verifInt64("x"), verifInt64("m")
+	out := BIF_roundm(mlrval.FromInt(x), mlrval.FromInt(m))
+	verifAssert(out.IsInt(), "C07/roundm/int-preserved")
+	verifReach("C07/roundm/end")
+}
